@@ -152,6 +152,7 @@ fn fidelity(args: &[String], verif: &Path, seed: u64) -> i32 {
             }
             let (mut fs, mut ex, out_path) = c20::build_exec(&scn, v, &text);
             ex.io = Default::default(); // fault-free
+            ex.stdout_tty = false; // the real run writes to a pipe
             let before = fs.clone();
             let sim = execute(&mut fs, &ex, crate::cli::run);
             // --- real execution ---
